@@ -38,6 +38,9 @@ pub enum VD {
     /// state that something further up displays). Generated at the top level only, and only for signals that are
     /// displayed by dynamic texts and attributes (which are patched in place, on the server too)
     SetNow(usize, u32),
+    /// a dynamic child whose closure returns `&'static str` ("even" / "odd"): NOT the `String` specialisation — a
+    /// marker-delimited dynamic view that holds one text node, on the server too
+    DStr(usize),
 }
 
 pub const KEYED_LISTS: &[&[u32]] = &[&[], &[1], &[1, 2], &[2, 1], &[1, 2, 3], &[3, 1]];
@@ -80,6 +83,7 @@ pub fn sx(v: &VD) -> String {
         VD::NoSsr(cs) => format!("(nossr{})", l(cs)),
         VD::OnCleanup(g, v) => format!("(oncleanup {g} {v})"),
         VD::SetNow(g, v) => format!("(setnow {g} {v})"),
+        VD::DStr(g) => format!("(dstr {g})"),
     }
 }
 
@@ -127,6 +131,7 @@ pub fn rd(s: &Sx) -> Option<VD> {
         "keyed" => VD::Keyed(num(&l[1])?),
         "oncleanup" => VD::OnCleanup(num(&l[1])?, num(&l[2])? as u32),
         "setnow" => VD::SetNow(num(&l[1])?, num(&l[2])? as u32),
+        "dstr" => VD::DStr(num(&l[1])?),
         "nossr" => VD::NoSsr(l[1..].iter().map(rd).collect::<Option<_>>()?),
         "nohydrate" => VD::NoHydrate(l[1..].iter().map(rd).collect::<Option<_>>()?),
         _ => return None,
@@ -191,6 +196,7 @@ pub fn build(v: &VD, sigs: &[Signal<u32>]) -> View {
             sigs[*g].set(*v);
             View::new()
         }
+        VD::DStr(g) => { let s = sigs[*g]; View::from_dynamic(move || -> &'static str { if s.get() % 2 == 0 { "even" } else { "odd" } }) }
         VD::NoSsr(cs) => {
             let (cs, sigs) = (cs.clone(), sigs.to_vec());
             view! { NoSsr(children=Children::new(move || View::from(cs.iter().map(|c| build(c, &sigs)).collect::<Vec<View>>()))) }
@@ -224,6 +230,7 @@ pub fn freeze(v: &VD, store: &[u32]) -> VD {
         }
         VD::Text(s) => VD::Text(s.clone()),
         VD::DText(g) => VD::Text(dtext_str(store[*g])),
+        VD::DStr(g) => VD::Text(if store[*g] % 2 == 0 { "even".into() } else { "odd".into() }),
         VD::DView(g, alts) | VD::DView0(g, alts) => if alts.is_empty() { VD::Frag(vec![]) } else { VD::Frag(fl(&alts[store[*g] as usize % alts.len()])) },
         VD::Show(g, cs) => if store[*g] % 2 == 1 { VD::Frag(fl(cs)) } else { VD::Frag(vec![]) },
         VD::Frag(cs) | VD::NoHydrate(cs) | VD::NoSsr(cs) => VD::Frag(fl(cs)),
@@ -257,7 +264,8 @@ pub fn gen(rng: &mut Rng, depth: usize, nsig: usize, budget: &mut usize) -> VD {
     // `nsig` writable signals 0..nsig-1; signal `nsig` exists too but is never written (input-less regions)
     match rng.below(if leaf { 3 } else { 12 }) {
         0 => VD::Text(["a", "b", "", "x<y", "hello"][rng.below(5)].to_string()),
-        1 | 2 => VD::DText(rng.below(nsig)),
+        1 => VD::DText(rng.below(nsig)),
+        2 => if rng.chance(1, 3) { VD::DStr(rng.below(nsig)) } else { VD::DText(rng.below(nsig)) },
         3 | 4 => {
             let n = rng.below(4); // 0..3 alternatives (empty and multi-node ones included)
             VD::DView(rng.below(nsig), (0..n).map(|_| (0..rng.below(3)).map(|_| gen(rng, depth - 1, nsig, budget)).collect()).collect())
